@@ -13,8 +13,8 @@
    ode_from_mna       with C01's mna_iff_phys: the same for any solution of the MNA systems that
                       the CURRENT stamps of lcapy/mnacpts.py assemble at each s
    Precondition [tsupported]: gains are constants, the analysis is not a dc analysis, and coupled
-   inductors carry no initial current (for those the K stamp omits the mutual flux M·i0k: recorded
-   defect; the physical law, with that term, is TimeDom.time_law_L). *)
+   inductors with initial currents are analysed as an initial value problem (kind ivp: the K stamp
+   then carries the mutual flux M·i0k of the physical law TimeDom.time_law_L). *)
 Require Import LT.FieldSec LT.PolyQ LT.ExpPoly LT.Circuit LT.CircuitLinear LT.TimeDom LT.TimeDomInj LT.TimeDomCircuit.
 Require Import Gen.StampsGen Gen.C01 Gen.C01model Gen.C01net.
 Local Open Scope Z_scope.
@@ -32,7 +32,7 @@ Definition tsupported (cl : cname) (e : tctx K) : Prop :=
   | cVCVS => gain_const e pArg0 /\ gain_const e pArg1
   | cVCCS => gain_const e pArg0
   | cCCCS | cCCVS => gain_const e pArg1
-  | cK => akind_eqb (t_kind e) KDc = false /\ k_ic_free e
+  | cK => akind_eqb (t_kind e) KDc = false /\ k_ic_ok e
   | cTF => gain_const e pAlpha
   | cGY => gain_const e pArg0
   | _ => False
